@@ -600,11 +600,17 @@ theorem loopRunTask_conserved (cfg : Cfg) (w : World) (hc : Conserved w) : Conse
 theorem loopTimers_conserved (w : World) (hc : Conserved w) : Conserved (loopTimers w) :=
   Conserved.frame (loopTimers_frame w) hc
 
+theorem supPush_conserved (cfg : Cfg) (w : World) (c x : Nat) (hc : Conserved w) : Conserved (supPush cfg w c x).1 := by
+  unfold supPush
+  cases hp : chanPush cfg w 0 c x 2 with
+  | closedErr => exact hc
+  | ok w1 b => exact chanPush_conserved cfg w 0 c x 2 w1 b hp hc
+
 theorem step_conserved (cfg : Cfg) (w : World) (a : Action) (hc : Conserved w) : Conserved (step cfg w a).1 := by
   unfold step
   cases hcur : w.current with
   | none =>
-    cases a <;> simp only [] <;> (first | exact hc | exact loopRunTask_conserved cfg w hc | exact loopTimers_conserved w hc | exact Conserved.congr rfl rfl (fun _ => rfl) hc)
+    cases a <;> simp only [] <;> (first | exact hc | exact loopRunTask_conserved cfg w hc | exact loopTimers_conserved w hc | exact supPush_conserved cfg w _ _ hc | exact Conserved.congr rfl rfl (fun _ => rfl) hc)
   | some f =>
     cases a with
     | go g =>
@@ -653,6 +659,7 @@ theorem step_conserved (cfg : Cfg) (w : World) (a : Action) (hc : Conserved w) :
     | runTask => exact hc
     | timers => exact hc
     | poll => exact hc
+    | supEvent c x => exact hc
 
 /-- **conservation** for every action sequence -/
 theorem run_conserved (cfg : Cfg) (as : List Action) : ∀ w : World, Conserved w → Conserved (run cfg w as) := by
